@@ -204,6 +204,8 @@ class World:
         self.group = [self]         # links sharing one dongle
         self.tail_acked = 0
         self.data_phase = False
+        self.neg_count = 0          # start-up frames of the current comm thread
+        self._thread = None
         self.senders_left = 0
         self.wedged = False
 
@@ -218,8 +220,16 @@ class World:
         op = self.shared_rec.pending
         return op is not None and op.kind == 'radio.tx' and self.gate_closed
 
-    def st(self):
+    @property
+    def thread(self):
+        """The current comm thread (the last one while the driver is paused)."""
         th = self.drv._thread
+        if th is not None:
+            self._thread = th
+        return self._thread
+
+    def st(self):
+        th = self.thread
         return [int(th._curr_up), int(th._curr_down), 1 if th._has_safelink else 0,
                 int(th._retry_before_disconnect), 1 if self.drv.needs_resending else 0]
 
@@ -239,6 +249,8 @@ class World:
         service = (not self.data_phase) and len(frame) == 3 and mask(frame[0]) == 0xF3 and frame[1] == 5
         if not service:
             self.data_phase = True
+        else:
+            self.neg_count += 1
         st = self.st()
         if o == 'U':
             rep = [0]
@@ -285,10 +297,12 @@ class World:
 
     def parked_at(self):
         """Where the radio loop is: 'tx' (about to transmit), 'put', 'get', or None (inside a
-        transfer / not started)."""
+        transfer / not started), 'paused' (no comm thread)."""
         rec = self.radio_rec
         op = rec.pending
-        if op is None or rec.finished:
+        if rec.finished:
+            return 'paused'         # the comm thread has ended (pause())
+        if op is None:
             return None
         if op.kind == 'queue.put' and op.obj is self.drv.in_queue:
             return 'put'
@@ -383,8 +397,8 @@ def execute(sc, mutant=None):
 
 def _project(w):
     """The real objects projected onto the variables of Safelink.tla."""
-    th = w.drv._thread
-    return {'pc': w.parked_at(), 'hUp': int(th._curr_up), 'hDown': int(th._curr_down),
+    th = w.thread
+    return {'pc': w.parked_at(), 'sp': bool(th._sp), 'hUp': int(th._curr_up), 'hDown': int(th._curr_down),
             'hasSL': bool(th._has_safelink), 'retryLeft': int(th._retry_before_disconnect),
             'needsRes': bool(w.drv.needs_resending),
             'outQ': [pk_bytes(x) for x in w.drv.out_queue.queue],
@@ -421,6 +435,15 @@ def _run_steps(w, s, sc, info):
             if not is_null(p):
                 w.nrcv += 1
 
+    def pauser():
+        w.log({'e': 'preq'})
+        w.drv.pause()               # stop(): _sp = True, join(); then _thread = None
+        w.log({'e': 'pause'})
+
+    def restarter():
+        w.drv.restart()
+        w.log({'e': 'restart'})
+
     def run(policy, until):
         try:
             r = s.run(until=until, policy=policy)
@@ -455,7 +478,30 @@ def _run_steps(w, s, sc, info):
         elif k == 'in':
             ok = w.parked_at() == 'put' and run(radio, lambda: w.parked_at() == 'get')
         elif k == 'og':
-            ok = w.parked_at() == 'get' and run(radio, lambda: w.parked_at() == 'tx')
+            ok = w.parked_at() == 'get' and run(radio, lambda: w.parked_at() in ('tx', 'paused'))
+        elif k == 'preq':
+            if w.parked_at() in (None, 'paused') or state.get('pauser') is not None:
+                ok = False
+            else:
+                pz = s.spawn(pauser, 'pauser')
+                state['pauser'] = pz
+                ok = run(Only([pz]), lambda: pz.finished or (pz.pending is not None and pz.pending.kind == 'thread.join'))
+        elif k == 'reboot':
+            ok = w.parked_at() == 'paused'
+            if ok:
+                w.peer = Peer(st[1], sc['tail'], sc['deny'])
+                w.log({'e': 'reboot', 'mode': st[1]})
+        elif k == 'restart':
+            if w.parked_at() != 'paused' or state.get('pauser') is not None:
+                ok = False
+            else:
+                rz = s.spawn(restarter, 'restarter')
+                ok = run(Only([rz]), lambda: rz.finished)
+                w.radio_rec = w.drv._thread._vs_rec
+                radio = Only([w.radio_rec, w.shared_rec])
+                w.data_phase = False
+                w.neg_count = 0
+                ok = run(radio, lambda: w.parked_at() == 'tx') and ok
         elif k == 'sub':
             if w.drv.out_queue.full():
                 ok = False
@@ -478,6 +524,10 @@ def _run_steps(w, s, sc, info):
             w.cf_queue(st[1])
         else:
             raise common.MachineryError('unknown macro step %r' % (st,))
+        pz = state.get('pauser')
+        if pz is not None and w.radio_rec.finished:     # the comm thread is gone: pause() returns
+            run(Only([pz]), lambda: pz.finished)
+            state['pauser'] = None
         info['executed'].append(list(st))
         if not ok:
             info['drift'] += 1
@@ -612,10 +662,13 @@ def _rewrite(rd, fn_name, old, new, cls_name='_RadioDriverThread'):
     import textwrap
     cls = getattr(rd, cls_name)
     src = textwrap.dedent(inspect.getsource(getattr(cls, fn_name)))
-    if src.count(old) != 1:
-        raise common.MachineryError('mutant snippet for %s not found exactly once: %r' % (fn_name, old))
+    pairs = [(old, new)] if isinstance(old, str) else list(zip(old, new))
+    for (o, n) in pairs:
+        if src.count(o) != 1:
+            raise common.MachineryError('mutant snippet for %s not found exactly once: %r' % (fn_name, o))
+        src = src.replace(o, n)
     ns = {}
-    exec(compile(src.replace(old, new), '<mutant %s>' % fn_name, 'exec'), rd.__dict__, ns)
+    exec(compile(src, '<mutant %s>' % fn_name, 'exec'), rd.__dict__, ns)
     orig = cls.__dict__[fn_name]
     setattr(cls, fn_name, ns[fn_name])
     return lambda: setattr(cls, fn_name, orig)
@@ -643,6 +696,10 @@ MUTANTS = {
     'sl_on_any_3_bytes': _m('run', 'tuple(resp.data) == (\n                0xff, 0x05, 0x01)', 'len(resp.data) == 3'),
     # upper layer told not to resend although safelink is off
     'never_needs_resending': _m('run', 'self._link.needs_resending = not self._has_safelink', 'self._link.needs_resending = False'),
+    # needs_resending only cleared on safelink success, never set again (relies on the __init__ default):
+    # wrong for the second comm thread of the same driver object (pause()/restart())
+    'nr_only_on_success': _m('run', ('self._has_safelink = True\n', '    self._link.needs_resending = not self._has_safelink\n'),
+                             ('self._has_safelink = True\n            self._link.needs_resending = False\n', '')),
     # ack payload queued twice
     'queue_ack_twice': _m('run', 'self._in_queue.put(inPacket)', 'self._in_queue.put(inPacket)\n            if inPacket.port != 15:\n                self._in_queue.put(inPacket)'),
 }
@@ -808,6 +865,107 @@ def count_scenarios(tier):
     return out
 
 
+def in_startup(w):
+    th = w.thread
+    return not w.data_phase and w.neg_count < NEGATT and not th._has_safelink and not th._sp
+
+
+def restart_gen(w, p):
+    """Director (generator) for one pause()/restart() life cycle: start-up 1 (neg1), main loop
+    (word1), pause requested with the loop parked at p['pause_at'], the loop runs out (outcomes
+    p['after']), things happen while paused (a submission, a queued downlink packet, optionally the
+    peer comes back as another kind), restart, start-up 2 (neg2), main loop (word2), optionally a
+    second cycle."""
+    up = [up_pk(i + 1) for i in range(6)]
+    dn = [dn_pk(j + 1) for j in range(4)]
+
+    def startup(word):
+        k = 0
+        while w.parked_at() == 'tx' and in_startup(w):
+            yield ['tx', word[k] if k < len(word) else 'A']
+            k += 1
+
+    def iteration(o):
+        yield ['tx', o]
+        while w.parked_at() in ('put', 'get'):
+            if w.parked_at() == 'get' and up and not w.drv.out_queue.full() and len(up) % 2 == 0:
+                yield ['sub', up.pop(0)]
+            yield ['in'] if w.parked_at() == 'put' else ['og']
+
+    yield ['sub', up.pop(0)]
+    yield ['cfq', dn.pop(0)]
+    for cyc in range(2 if p.get('twice') else 1):
+        neg = p['neg1'] if cyc == 0 else 'A'
+        if p['pause_at'] == 'neg' and cyc == 0:
+            yield ['tx', neg[0]]
+            yield ['preq']          # during the start-up loop if it is still going on, else at the loop top
+            for st in startup(neg[1:]):
+                yield st
+        else:
+            for st in startup(neg):
+                yield st
+            for o in p['word1']:
+                for st in iteration(o):
+                    yield st
+            if w.parked_at() == 'tx' and p['pause_at'] in ('put', 'get'):
+                yield ['tx', 'A']
+                if p['pause_at'] == 'get' and w.parked_at() == 'put':
+                    yield ['in']
+            yield ['preq']
+        after = list(p['after'])
+        n = 0
+        while w.parked_at() != 'paused' and n < 30:
+            n += 1
+            at = w.parked_at()
+            yield ['in'] if at == 'put' else ['og'] if at == 'get' else ['tx', after.pop(0) if after else 'A']
+        if up and not w.drv.out_queue.full():
+            yield ['sub', up.pop(0)]        # accepted while there is no comm thread
+        if dn:
+            yield ['cfq', dn.pop(0)]
+        if p.get('reboot') and cyc == 0:
+            yield ['reboot', p['reboot']]
+        yield ['restart']
+        for st in startup(p['neg2'] if cyc == 0 else 'LA'):
+            yield st
+        for o in p['word2']:
+            for st in iteration(o):
+                yield st
+    for _ in range(4):
+        for st in iteration('A'):
+            yield st
+    yield ['rcvall']
+
+
+class GenDirector:
+    def __init__(self, fn, p):
+        self.fn, self.p, self.g = fn, p, None
+
+    def __call__(self, w):
+        if self.g is None:
+            self.g = self.fn(w, self.p)
+        return next(self.g, None)
+
+
+def restart_scenarios(tier, rng):
+    """RadioDriver.pause()/restart(): a new start-up on the same driver object, against every
+    kind of second start-up (confirmed, confirmed late, all ten unanswered, peer rebooted)."""
+    out = []
+    for neg1 in ('A', 'LUA', 'U' * 10):
+        for pause_at in ('tx', 'put', 'get', 'neg'):
+            for after in ('A', 'L', 'UA'):
+                for reboot in (None, 'nosl', 'deny', 'sl'):
+                    for neg2 in ('A', 'LLA', 'U' * 10, 'L' * 10, 'UL' * 5):
+                        for (w1, w2) in (('AA', 'AALA'), ('ALA', 'LAUA')):
+                            out.append({'mode': 'sl' if len(out) % 7 else 'nosl', 'tail': [1, 44], 'deny': DENY_REPLIES[len(out) % 3],
+                                        'retries': 3 + len(out) % 2,
+                                        'gen': ['restart', {'neg1': neg1, 'pause_at': pause_at, 'after': after, 'reboot': reboot,
+                                                            'neg2': neg2, 'word1': w1, 'word2': w2, 'twice': len(out) % 5 == 0}]})
+    if tier == 'quick':
+        must = [sc for sc in out if sc['gen'][1]['neg1'] == 'A' and sc['gen'][1]['neg2'] in ('U' * 10, 'L' * 10)][::6]
+        out = must + rng.sample(out, 200)
+    return out
+
+
 def random_scenarios(tier, rng):
     """Random beyond: long runs (200-2000 transmissions), random loss processes, several sending
     threads, random submission/queueing times, seeded random thread schedule."""
@@ -878,7 +1036,10 @@ def materialize(sc):
     if 'gen' in sc and 'steps' not in sc:
         g = sc['gen']
         sc = dict(sc)
-        sc['steps'] = WordDirector(g[1], g[2], g[3], g[4], g[5])
+        if g[0] == 'restart':
+            sc['steps'] = GenDirector(restart_gen, g[1])
+        else:
+            sc['steps'] = WordDirector(g[1], g[2], g[3], g[4], g[5])
     return sc
 
 
@@ -898,7 +1059,7 @@ def run_scenarios(scs, mutant=None, keep_proj=False):
 
 
 # --------------------------------------------------------------------------- spec -> code
-PROJ_KEYS = ('pc', 'hUp', 'hDown', 'hasSL', 'retryLeft', 'needsRes', 'outQ', 'inQ', 'peer')
+PROJ_KEYS = ('pc', 'sp', 'hUp', 'hDown', 'hasSL', 'retryLeft', 'needsRes', 'outQ', 'inQ', 'peer')
 
 
 def scenario_from_behaviour(beh):
@@ -921,6 +1082,12 @@ def scenario_from_behaviour(beh):
             steps.append(['cfq', st['peer']['txq'][-1]])
         elif name == 'AppRecv':
             steps.append(['rcv'])
+        elif name == 'Pause':
+            steps.append(['preq'])
+        elif name == 'Restart':
+            steps.append(['restart'])
+        elif name == 'PeerReboot':
+            steps.append(['reboot', args[0]])
         else:
             raise common.MachineryError('unexpected action label %r in a Safelink behaviour' % label)
         e = {k: st[k] for k in PROJ_KEYS}
@@ -1003,7 +1170,7 @@ def replayable(sc, meta):
 
 # --------------------------------------------------------------------------- the check
 BUGS = ['flip_up_on_lost', 'dequeue_on_lost', 'no_retry_reset', 'retry_off_by_one', 'sl_on_any_3_bytes',
-        'never_flip_down', 'never_needs_resending']
+        'never_flip_down', 'never_needs_resending', 'nr_only_on_success']
 
 
 def expect_temporal_violation(spec, cfg, **kw):
@@ -1153,7 +1320,9 @@ def main(tier, seed, replay=None):
     # 1. design spec: exhaustive checks; every bug variant must be refuted (vacuity guards)
     main_cfg = 'MC_Safelink_quick.cfg' if tier == 'quick' else 'MC_Safelink_thorough.cfg'
     jobs = [('main', tlc.check, ('MC_Safelink.tla', main_cfg), dict(workers=workers or 8, timeout=3000)),
-            ('modes', tlc.check, ('MC_Safelink.tla', 'MC_Safelink_modes.cfg'), dict(workers=4, timeout=1500))]
+            ('modes', tlc.check, ('MC_Safelink.tla', 'MC_Safelink_modes.cfg'), dict(workers=4, timeout=1500)),
+            ('restart', tlc.check, ('MC_Safelink.tla', 'MC_Safelink_restart.cfg' if tier == 'quick' else 'MC_Safelink_restart2.cfg'),
+             dict(workers=4, timeout=3000))]
     if tier == 'thorough':
         jobs.append(('quick', tlc.check, ('MC_Safelink.tla', 'MC_Safelink_quick.cfg'), dict(workers=4, timeout=3000, coverage=True)))
         jobs.append(('live', tlc.check, ('MC_Safelink.tla', 'MC_Safelink_live.cfg'), dict(workers=4, timeout=3000)))
@@ -1169,7 +1338,8 @@ def main(tier, seed, replay=None):
         if k.startswith('bug:'):
             out.sensitivity['spec:' + k[4:]] = 'refuted (%s) after %d states' % (r.violated, r.distinct)
         else:
-            out.add_tlc({'main': main_cfg, 'modes': 'MC_Safelink_modes.cfg', 'quick': 'MC_Safelink_quick.cfg',
+            out.add_tlc({'main': main_cfg, 'modes': 'MC_Safelink_modes.cfg',
+                         'restart': 'MC_Safelink_restart%s.cfg (pause()/restart() life cycle, peer reboot)' % ('' if tier == 'quick' else '2'), 'quick': 'MC_Safelink_quick.cfg',
                          'live': 'MC_Safelink_live.cfg (liveness EventuallyDelivered under FairSpec)'}[k], r)
 
     lap('1 TLC design spec + bug cfgs + apalache')
@@ -1212,7 +1382,8 @@ def main(tier, seed, replay=None):
     words = word_scenarios(tier)
     starts = startup_scenarios(tier, rng)
     counts = count_scenarios(tier)
-    check_blocks(out, words + starts + counts, 'outcome words + start-up + exact counts', stats)
+    restarts = restart_scenarios(tier, rng)
+    check_blocks(out, words + starts + counts + restarts, 'outcome words + start-up + exact counts + pause/restart', stats)
     nwords = len(words)
     lap('3a words/start-up/counts')
     rnd = random_scenarios(tier, rng)
@@ -1249,10 +1420,10 @@ def main(tier, seed, replay=None):
     out.rule = ('scenario = (peer kind, start-up outcome word, main-loop outcome word over {A,U,L}, submission pattern, '
                 'retries); ALL main-loop words of length <= %d (a word is followed by an all-A drain, so shorter words '
                 'ending in A are subsumed) at patterns eager/late%s [%d traces]; ALL start-up loss patterns (2^j, j<=10%s) '
-                'x peer kinds [%d]; %d exact-count scenarios (N = 1, 2, 3, 5, 17, default 100); %d TLC -simulate behaviours replayed; %d seeded random runs of 200-%d transmissions with '
+                'x peer kinds [%d]; %d exact-count scenarios (N = 1, 2, 3, 5, 17, default 100); %d pause()/restart() life cycles (pause point x outcomes while stopping x second start-up x peer reboot); %d TLC -simulate behaviours replayed; %d seeded random runs of 200-%d transmissions with '
                 'random thread schedules; %d runs with 2-3 links multiplexed over one dongle; link errors occurred in %d traces; '
                 '%d transmissions in total' %
-                (k, '/mid', nwords, ', sampled above 64 per j in quick' if tier == 'quick' else '', len(starts), len(counts), len(sims),
+                (k, '/mid', nwords, ', sampled above 64 per j in quick' if tier == 'quick' else '', len(starts), len(counts), len(restarts), len(sims),
                  len(rnd), 600 if tier == 'quick' else 2000, len(duals), stats['errors'], stats['tx']))
     out.samples = stats['samples'][:6]
     out.extra['transmissions'] = stats['tx']
@@ -1261,6 +1432,7 @@ def main(tier, seed, replay=None):
     lap('3c multi-link')
     # 4. sensitivity: in-memory mutants of the driver must be rejected by the monitor
     sub = words[::max(1, len(words) // (240 if tier == 'quick' else 1500))] + starts[::max(1, len(starts) // (90 if tier == 'quick' else 300))] + rnd[:2]
+    sub += [sc for sc in restarts if sc['mode'] == 'sl' and sc['gen'][1]['neg1'] == 'A' and sc['gen'][1]['neg2'] != 'A'][:40]
     def _applicable(name):
         # a textual mutant whose snippet is gone from the tree under test is skipped, not an error
         _init()
